@@ -542,6 +542,13 @@ def buffer_has_min_size(buf, ctor):
         if isinstance(arr, tuple) and arr[0] == 'agg' and arr[2]:
             first = peel(arr[2][0], unwraps=False)
             return is_call(first, r'from_elem$') and has_min_term(first[2][1], cls)
+    if isinstance(b, tuple) and b[0] == 'phi':
+        # allocated with the minimum size, afterwards only grown (push / extend_from_slice / append ...)
+        base = [a for a in b[1] if not (isinstance(a, tuple) and a[0] == 'modby')]
+        mods = [a for a in b[1] if isinstance(a, tuple) and a[0] == 'modby']
+        from rules.common import GROW_ONLY
+        if len(base) == 1 and mods and all(re.search(GROW_ONLY, m[1]) for m in mods):
+            return buffer_has_min_size(base[0], ctor)
     if is_call(b, r'to_vec$'):
         src = peel(b[2][0], unwraps=False)
         # copy of an existing packet of the same or a larger fixed part
